@@ -62,6 +62,14 @@ void *realloc(void *ptr, size_t len)
     if (len % __WORDSIZE != 0)
         len += (__WORDSIZE - (len % __WORDSIZE));
 
+    /*
+     * Same minimum chunk size as in malloc(): free() stores the
+     * free-list link in the payload, so a block must never shrink
+     * below the size of that link.
+     */
+    if (len < sizeof(struct __freelist) - sizeof(size_t))
+        len = sizeof(struct __freelist) - sizeof(size_t);
+
     struct __freelist *fp1, *fp2, *fp3, *ofp3;
     char *cp, *cp1;
     void *memp;
